@@ -210,7 +210,12 @@ func vh_C13_chunks() {
 		return
 	}
 	vAssert(vErrKind(errA) == vErrKind(errB), "chunked-same-error-kind")
-	vAssert(vSexpListEq(a, b), "chunked-same-expressions")
+	if errA == nil && errB == nil {
+		// a text that fails to parse yields its error; which of the
+		// expressions before the failure are handed back with it is not
+		// part of what the text denotes
+		vAssert(vSexpListEq(a, b), "chunked-same-expressions")
+	}
 	vReach("chunks")
 }
 
@@ -305,3 +310,116 @@ func vOffsets(label string, texts []string, symbolic bool) {
 }
 
 func vh_C13_offsets() { vOffsets("offsets", vC13Features, true) }
+
+// ---- "asks for more input exactly when the text is an unfinished prefix" ----
+
+const (
+	vC13Complete = iota
+	vC13Unfinished
+	vC13Mismatch
+)
+
+// vC13Classify is the reference: a text over the alphabet below is an
+// unfinished prefix iff it ends inside a string, a raw string or a block
+// comment, or with a bracket still open; a closing bracket that does not
+// match the innermost open one (or has none) is a mismatch (nothing is
+// asserted about those).  Written from the documented lexical structure:
+// "..." strings, `...` raw strings, /* ... */ block comments (the closing
+// star cannot be the opening one), // line comments up to the newline.
+func vC13Classify(t string) int {
+	var stack []byte
+	i := 0
+	for i < len(t) {
+		c := t[i]
+		// a quote or backtick directly behind an atom character is rejected
+		// by the lexer ("Unexpected quote"): not a string start
+		if (c == '"' || c == '`') && i > 0 && (t[i-1] == 'a' || t[i-1] == '*' || t[i-1] == '/') {
+			return vC13Mismatch
+		}
+		switch {
+		case c == '"':
+			j := i + 1
+			for j < len(t) && t[j] != '"' {
+				j++
+			}
+			if j >= len(t) {
+				return vC13Unfinished
+			}
+			i = j + 1
+		case c == '`':
+			j := i + 1
+			for j < len(t) && t[j] != '`' {
+				j++
+			}
+			if j >= len(t) {
+				return vC13Unfinished
+			}
+			i = j + 1
+		case c == '/' && i+1 < len(t) && t[i+1] == '*':
+			j := i + 2
+			for j+1 < len(t) && !(t[j] == '*' && t[j+1] == '/') {
+				j++
+			}
+			if j+1 >= len(t) {
+				return vC13Unfinished
+			}
+			i = j + 2
+		case c == '/' && i+1 < len(t) && t[i+1] == '/':
+			j := i + 2
+			for j < len(t) && t[j] != '\n' {
+				j++
+			}
+			i = j
+		case c == '(' || c == '[' || c == '{':
+			stack = append(stack, c)
+			i++
+		case c == ')' || c == ']' || c == '}':
+			open := map[byte]byte{')': '(', ']': '[', '}': '{'}[c]
+			if len(stack) == 0 || stack[len(stack)-1] != open {
+				return vC13Mismatch
+			}
+			stack = stack[:len(stack)-1]
+			i++
+		default:
+			i++
+		}
+	}
+	if len(stack) > 0 {
+		return vC13Unfinished
+	}
+	return vC13Complete
+}
+
+var vC13Alphabet = []byte{'(', ')', '[', ']', '{', '}', '"', '`', '/', '*', 'a', ' ', '\n'}
+
+// vh_C13_moreinput: every text of up to 4 (thorough 5) characters over the
+// bracket/string/comment alphabet: the parser answers "more input needed"
+// exactly when the reference says the text is an unfinished prefix.
+func vh_C13_moreinput() {
+	vFormatOpaque(true)
+	env := vEnvs(1)[0]
+	max := 4
+	if vTier() == 1 {
+		max = 5
+	}
+	n := 1 + vChoice("len", max)
+	b := make([]byte, n)
+	for i := range b {
+		b[i] = vC13Alphabet[vChoice("c", len(vC13Alphabet))]
+	}
+	txt := string(b)
+	_, err, p := vParse(env, txt)
+	if p {
+		vDone() // C01
+	}
+	switch vC13Classify(txt) {
+	case vC13Complete:
+		vAssert(err != ErrMoreInputNeeded, "complete-text-does-not-ask-for-more-input")
+		vReach("complete")
+	case vC13Unfinished:
+		vAssert(err == ErrMoreInputNeeded, "unfinished-prefix-asks-for-more-input")
+		vReach("unfinished")
+	default:
+		vReach("mismatch")
+	}
+}
